@@ -380,9 +380,24 @@ class Runner:
             ctx.tally("refusal")
             ctx.tally("fl_mirror_refusal")
             ctx.case(c.key(), False)
-            if r[0] != "err" or r[1] != flm[1]:
+            if r[0] == "ok":
+                # C15 states the language, not the refusal: a constructor that ignores the words that can never be read
+                # (they contain a symbol outside the alphabet) and builds the DFA of the rest satisfies it too
+                d, lang = r[1], set(c.kw["lang"])
+                top = max((len(w) for w in lang), default=0) + 1
+                words = ["".join(t) for n in range(top + 1) for t in itertools.product(c.sigma, repeat=n)]
+                wrong = [w for w in words if d.accepts_input(w) != (w in lang)]
+                wrong += [w for w in lang if any(ch not in c.sigma for ch in w) and d.accepts_input(w)]
+                if wrong or outcome(lambda: d.validate())[0] != "ok":
+                    self.violation(f"{fam}:refusal", f"{c.kind}{c.kw}: the mirror model refuses with code {flm[1]}; the implementation "
+                                   f"built a DFA that is not the DFA of the words over the alphabet (differs on {wrong[:3]!r})",
+                                   dict(rp, correspondence="C15/fl-mirror"))
+                else:
+                    ctx.structural += 1
+                    ctx.tally("fl_foreign_words_ignored_instead_of_refused")
+            elif r[1] != flm[1]:
                 self.violation(f"{fam}:refusal", f"{c.kind}{c.kw}: the mirror model refuses with code {flm[1]}, implementation gave "
-                               f"{r[:1] + r[2:] if r[0] == 'err' else 'a DFA'}", dict(rp, correspondence="C15/fl-mirror"))
+                               f"{r[:1] + r[2:]}", dict(rp, correspondence="C15/fl-mirror"))
             return
         if r[0] == "err":
             ctx.case(c.key(), False)
@@ -727,11 +742,9 @@ def foreign_symbol_reproducer(ctx):
                 mirror = enc.dec_res(ans[0])
                 same = mirror[0] == "ok" and enc.tree(canon_dfa_tree(mirror[1])) == enc.tree(timpl)
                 ctx.tally("foreign_symbol_reproducer_mirror_table_" + ("identical" if same else "differs"))
-                if not same and k["status"] != "open" and not witness:     # with a witness the confirmed violation below is reported
-                    ctx.violation("from_substrings%r over %r: the Aho-Corasick mirror model and the implementation build different "
-                                  "tables on the fixed finding's reproducer" % (pats, sigma),
-                                  {"kind": "from_substrings", "sigma": sigma, "foreign_symbol": True, "correspondence": "C15/ac-mirror",
-                                   "kwargs": repr(dict(pats=frozenset(pats), contains=contains, must_be_suffix=False))}, confirmed=False)
+                if not same and k["status"] != "open" and not witness:
+                    # another (correct) numbering of the trie nodes: the language check above decides; counted as structural
+                    ctx.structural += 1
         if k["status"] == "open":
             if witness:
                 ctx.tally("known_foreign_symbol_defect_reproduced")
